@@ -16,6 +16,8 @@
 #include <ctype.h>
 #include <math.h>
 #include <limits>
+#include <locale.h>
+#include <string>
 #include <string.h>
 
 #ifdef _WIN32
@@ -85,23 +87,22 @@ pstrtod(const char *nptr, char **endptr) {
     }
 
   } else {
-    // Start reading decimal digits to the left of the decimal point.
+    // Scan the number ourselves, so that "." is the decimal point whatever
+    // the locale says: digits [ "." digits ] [ ("e"|"E") [sign] digits ].
+    const char *start = p;
     bool found_digits = false;
     while (isdigit(*p)) {
-      value = (value * 10.0) + (*p - '0');
       found_digits = true;
       ++p;
     }
 
+    const char *point = nullptr;
     if (*p == '.') {
+      point = p;
       ++p;
-      // Read decimal digits to the right of the decimal point.
-      double multiplicand = 0.1;
       while (isdigit(*p)) {
-        value += (*p - '0') * multiplicand;
         ++p;
         found_digits = true;
-        multiplicand *= 0.1;
       }
     }
 
@@ -116,26 +117,26 @@ pstrtod(const char *nptr, char **endptr) {
     if (tolower(*p) == 'e') {
       // There's an exponent.
       ++p;
-
-      char esign = '+';
       if (*p == '+' || *p == '-') {
-        esign = *p;
         ++p;
       }
-
-      // Start reading decimal digits to the left of the decimal point.
-      double evalue = 0.0;
       while (isdigit(*p)) {
-        evalue = (evalue * 10.0) + (*p - '0');
         ++p;
-      }
-
-      if (esign == '-') {
-        value /= pow(10.0, evalue);
-      } else {
-        value *= pow(10.0, evalue);
       }
     }
+
+    // Let the C library do the conversion proper, which is correctly rounded
+    // (accumulating digits in floating point is not).  It expects the
+    // locale's decimal point in place of ".".
+    std::string number(start, p);
+    if (point != nullptr) {
+      const char *locale_point = localeconv()->decimal_point;
+      if (locale_point != nullptr && locale_point[0] != '\0' &&
+          strcmp(locale_point, ".") != 0) {
+        number.replace(point - start, 1, locale_point);
+      }
+    }
+    value = strtod(number.c_str(), nullptr);
   }
 
   if (sign == '-') {
